@@ -111,9 +111,15 @@ pub enum Op {
     ClearOutcome,
     SetAuto(u8),
     Fork,
-    EqTwin(u8),
+    /// variant = v % 10, index seed = v / 10
+    EqTwin(u16),
     RebuildMoves,
     RebuildUci,
+    /// Switches the run to sparse observation: `calc_outcome` is then queried only by
+    /// explicit `QueryOutcome` steps instead of after every step, so that the oracle's own
+    /// queries cannot mask state that a query refreshes (memoisation, lazy updates).
+    SparseOutcomeQueries,
+    QueryOutcome,
     BoardMake(MoveLike),
     FenProbe(String),
     RawProbe(Edit),
@@ -489,6 +495,8 @@ impl Op {
             Op::EqTwin(v) => format!("eq_twin {}", v),
             Op::RebuildMoves => "rebuild_moves".into(),
             Op::RebuildUci => "rebuild_uci".into(),
+            Op::SparseOutcomeQueries => "sparse_outcome_queries".into(),
+            Op::QueryOutcome => "query_outcome".into(),
             Op::BoardMake(ml) => format!("board_make {}", ml.encode()),
             Op::FenProbe(s) => format!("fen_probe {}", hex(s)),
             Op::RawProbe(e) => format!("raw_probe {}", e.encode()),
@@ -536,6 +544,8 @@ impl Op {
             "eq_twin" => Op::EqTwin(t.get(1)?.parse().ok()?),
             "rebuild_moves" => Op::RebuildMoves,
             "rebuild_uci" => Op::RebuildUci,
+            "sparse_outcome_queries" => Op::SparseOutcomeQueries,
+            "query_outcome" => Op::QueryOutcome,
             "board_make" => Op::BoardMake(MoveLike::decode(&t[1..])?.0),
             "fen_probe" => Op::FenProbe(unhex(t.get(1)?)?),
             "raw_probe" => Op::RawProbe(Edit::decode(&t[1..])?),
